@@ -2,8 +2,9 @@
 //!
 //! Cases:
 //!   {"op": "parse", "q": "<query text>"}
-//!     -> {"t": <tree>|"err", "l": "<to_lucene(t)>", "t2": <tree of parse(l)>|"err", "l2": "<to_lucene(t2)>"}
-//!        (`l`, `t2`, `l2` only when the first parse succeeded)
+//!     -> {"t": <tree>|"err"|"panic", "l": "<to_lucene(t)>", "t2": <tree of parse(l)>|"err"|"panic",
+//!         "l2": "<to_lucene(t2)>", "fl": [["<bits of a float bound>", "<its Display text>"], ...]}
+//!        (`l`, `t2`, `l2`, `fl` only when the first parse succeeded)
 //!   {"op": "match", "ev": <vj value>, "qs": ["<query>", ...], ...}
 //!     -> {"r": [{"t": <tree>|"err", "m": true|false|"compile"|"error"}, ...]}
 //!        every query is parsed with the public parser (tree reported) and, independently, compiled into
@@ -84,6 +85,34 @@ fn parse(q: &str) -> Option<QueryNode> {
     q.parse::<QueryNode>().ok()
 }
 
+/// Ok(Some(tree)) | Ok(None) = the parser's Err | Err(()) = the parser panicked
+fn parse_caught(q: &str) -> Result<Option<QueryNode>, ()> {
+    let q = q.to_string();
+    std::panic::catch_unwind(move || q.parse::<QueryNode>().ok()).map_err(|_| ())
+}
+
+fn floats(n: &QueryNode, out: &mut Vec<J>) {
+    let cvf = |v: &ComparisonValue, out: &mut Vec<J>| {
+        if let ComparisonValue::Float(f) = v {
+            out.push(json!([format!("{:016x}", f.to_bits()), f.to_string()]));
+        }
+    };
+    match n {
+        QueryNode::AttributeRange { lower, upper, .. } => {
+            cvf(lower, out);
+            cvf(upper, out);
+        }
+        QueryNode::AttributeComparison { value, .. } => cvf(value, out),
+        QueryNode::NegatedNode { node } => floats(node, out),
+        QueryNode::Boolean { nodes, .. } => {
+            for x in nodes {
+                floats(x, out);
+            }
+        }
+        _ => {}
+    }
+}
+
 /// the query text as a VRL string literal
 fn vrl_quote(q: &str) -> String {
     let mut s = String::from("\"");
@@ -149,13 +178,20 @@ pub fn run(case: &J) -> J {
     match case["op"].as_str().expect("op") {
         "parse" => {
             let q = case["q"].as_str().expect("q");
-            match parse(q) {
-                None => json!({"t": "err"}),
-                Some(n) => {
+            match parse_caught(q) {
+                Err(()) => json!({"t": "panic"}),
+                Ok(None) => json!({"t": "err"}),
+                Ok(Some(n)) => {
                     let l = n.to_lucene();
-                    match parse(&l) {
-                        None => json!({"t": tree(&n), "l": l, "t2": "err"}),
-                        Some(n2) => json!({"t": tree(&n), "l": l, "t2": tree(&n2), "l2": n2.to_lucene()}),
+                    let mut fl = Vec::new();
+                    floats(&n, &mut fl);
+                    match parse_caught(&l) {
+                        Err(()) => json!({"t": tree(&n), "l": l, "t2": "panic", "fl": fl}),
+                        Ok(None) => json!({"t": tree(&n), "l": l, "t2": "err", "fl": fl}),
+                        Ok(Some(n2)) => {
+                            floats(&n2, &mut fl);
+                            json!({"t": tree(&n), "l": l, "t2": tree(&n2), "l2": n2.to_lucene(), "fl": fl})
+                        }
                     }
                 }
             }
